@@ -115,7 +115,8 @@ def value_menu() -> Dict[str, Any]:
     import numpy as np
 
     return {"int": 5, "true": True, "false": False, "negzero": -0.0, "inf": float("inf"), "nan": float("nan"), "np.float64": np.float64(5.0),
-            "np.int64": np.int64(3), "numeric-string": "5.0", "empty-string": "", "list": [1.0], "bigint": 10 ** 20, "tuple": (1.0, 2.0)}
+            "np.int64": np.int64(3), "numeric-string": "5.0", "empty-string": "", "list": [1.0], "bigint": 10 ** 20, "tuple": (1.0, 2.0),
+            "none": None}  # a key that is PRESENT with the value None is a context value like any other (node > context > default)
 
 
 def data_kinds_for(prog) -> List[str]:
